@@ -83,6 +83,15 @@ def expand(job):
         sp = gen.spelling(rnd)
         m = MEANING[sp]
         base = gen.rand_point(rnd, m, wide=rnd.random() < 0.3, whole=True, allow24=True)
+        if rnd.random() < 0.25:
+            # the first / last day of a year next to a leap year, close to midnight, in an offset that puts the UTC date in
+            # the neighbouring year: comparison, hashing and subtraction re-zone across the year boundary (in either direction)
+            y = rnd.choice([1999, 2000, 2001, 2003, 2004, 2005, 2020, 2021, 1900, 1901, 0, 1, -1, 4, 5, 2100, 2101])
+            n = R.year_start(m, y) + rnd.choice([0, 0, -1, -1, 1, -2])
+            rep = rnd.choice(["cal", "ord", "ord", "week"])
+            yy, a_, b_ = R.date_of(m, rep, n)
+            zh, zm = rnd.choice([(1, 0), (-1, 0), (5, 30), (-3, -30), (13, 45), (-11, 0), (0, 30), (0, -30), (0, 0)])
+            base = tp_rec(rep, yy, a_, b_, sod=rnd.choice([0, 1800, 3599, 84600, 86399, 43200, 1]), zh=zh, zm=zm, xd=2 if yy < 0 else 0)
         pool = [base]
         for _k in range(job.get("size", 6) - 1):
             x = rnd.random()
